@@ -85,6 +85,16 @@ def smoke() -> dict:
     return out
 
 
+def star(full: str) -> None:
+    """`from <module> import *`: succeeds, and binds the module's own objects"""
+    ns = {}
+    exec(f"from {full} import *", ns)
+    real = sys.modules[full]
+    for n, v in ns.items():
+        if n != "__builtins__" and getattr(real, n, None) is not v:
+            raise ImportError(f"'from {full} import *' bound {n} to another object than {full}.{n}")
+
+
 def main() -> None:
     repo = sys.argv[1]
     job = json.loads(sys.argv[2])
@@ -114,6 +124,8 @@ def main() -> None:
                 exec(f"from chartparse import {mod}", {})
             elif form == "from_mod":
                 exec(f"from {full} import {name}", {})
+            elif form == "star":
+                star(full)
             else:
                 raise RuntimeError(f"unknown form {form}")
             # the statement succeeded — did it bind the package's module / the module's own object?
@@ -135,8 +147,15 @@ def main() -> None:
             failed = {"step": i, "form": form, "module": mod, "name": name,
                       "exc": type(e).__name__, "msg": str(e)[:300]}
             break
+        if job.get("use_between") and i + 1 < len(job["steps"]):
+            # a program that USES what it has imported before it imports more (import sync; build a tempo map; import chart; ...)
+            try:
+                smoke()
+            except BaseException:  # noqa
+                pass
     snapshot = None
     used = None
+    used_final = None
     if failed is None:
         try:
             used = smoke()
@@ -165,7 +184,20 @@ def main() -> None:
         except BaseException as e:  # noqa
             failed = {"step": len(job["steps"]), "form": "completion", "module": "?", "name": None,
                       "exc": type(e).__name__, "msg": str(e)[:300]}
-    print(json.dumps({"failed": failed, "exec_order": exec_order, "snapshot": snapshot, "used": used}))
+        if failed is None:
+            # with everything loaded - in whatever order, with whatever use in between - the package is used once more ...
+            try:
+                used_final = smoke()
+            except BaseException as e:  # noqa
+                used_final = {"smoke": f"raised {type(e).__name__}: {e}"[:300]}
+            # ... and every module's public names can be imported wholesale
+            for m in sorted(job["modules"]):
+                try:
+                    star(f"chartparse.{m}")
+                except BaseException as e:  # noqa
+                    failed = {"step": len(job["steps"]), "form": "star", "module": m, "name": "*", "exc": type(e).__name__, "msg": str(e)[:300]}
+                    break
+    print(json.dumps({"failed": failed, "exec_order": exec_order, "snapshot": snapshot, "used": used, "used_final": used_final}))
 
 
 main()
